@@ -208,10 +208,14 @@ CHECKS = {
                  'call resolver(root, ctx, info, **arguments) the executor can make binds), and the _is_valid cache as a state machine over validate / '
                  'register_resolver / register_default_resolver / register_subscription / plain resolver assignment / field.arguments / multi-entry replace '
                  'requests incl. refusals / structural plain assignments: cache_sound, validate_ok_means_valid, step_inv, cache_sound_all (cached-valid => '
-                 'the CURRENT schema is valid, over all honest histories), structural_setter_seen_sound, cache_tracks_assignments / _arguments, '
-                 'signature_of_the_callable. Refuted with machine-checked witnesses: the legacy cache variants (legacy_overwrite / nonatomic / '
-                 'directive_unsound, legacy_type_name_masks, legacy_duplicate_masks) and CacheSoundAllMutators (cache_sound_all_mutators_fails_today: an '
-                 'untracked structural setter such as object.interfaces = [...] after validate() leaves a stale verdict; outside the statement, counted). '
+                 'the CURRENT schema is valid, over all honest histories), structural_setter_seen_sound, cache_tracks_assignments / _arguments / _structure, '
+                 'signature_of_the_callable, and - WITH proposed_fixes/C13-S12.patch (fingerprint = everything the validator reads; flag '
+                 'cfgCacheTracksStructure re-extracted) - cache_sound_all_mutators / cache_sound_every_history: EVERY public mutator, structural plain '
+                 'assignments included, with honest replace requests as the only condition. perm_deep: the verdict does not depend on the order of ANY '
+                 'list of the description at any level (types, directives, fields, arguments, enum values, input fields, union members, interfaces). '
+                 'Refuted with machine-checked witnesses: the legacy cache variants (legacy_overwrite / nonatomic / directive_unsound, '
+                 'legacy_type_name_masks, legacy_duplicate_masks, and cache_unsound_unseen_structural_setter / cache_sound_all_mutators_fails_today for '
+                 'the tree before fix C13-S12). '
                  'Tied by correspondence (verdict + multiset of reporting rule instances, both values of enable_resolver_validation) on the DUMP OF THE '
                  'LIVE schema over streams A-M: valid schemas, labelled violations at every position, covariance through wrappers, all type orders, '
                  'register/assign/replace/validate histories, one resolver shared by several fields, derived schemas (clone / transform / extend), '
@@ -219,8 +223,9 @@ CHECKS = {
         "note": ('Trusted: Lean kernel; py2lean translator; extraction of name classes, rule format strings (used only to attribute errors), replace '
                  'flags and fix flags; inspect.signature (signatures enter the model as data; bindOk is a model of CPython call binding checked by REALLY '
                  'calling the generated callables); build_schema and fix_type_references are exercised, not modelled. Only exercised: what a deletion heals '
-                 '(taken from the live object). Residual, outside the statement: structural plain assignments that _current_resolvers() does not see '
-                 '(field.type, union.types, interfaces, names, query_type) keep a stale verdict (evidence key outside_statement_stale_after_structural_setter).'),
+                 '(taken from the live object). Until proposed_fixes/C13-S12.patch is committed to /repo the obligation cache_tracks_structure fails and '
+                 'structural plain assignments keep a stale verdict (counted: outside_statement_stale_after_structural_setter). Residual after the fix: '
+                 'objects not reachable from schema.types, the derived caches implementations / _possible_types, in-place mutation of a default value.'),
         "technique": 'Lean 4 proof over hand model (validator = declarative rules instance by instance; cache invariant over all histories; call-binding model) + source-translated is_subtype + labelled-violation / history correspondence',
     },
     "C20": {
@@ -362,9 +367,14 @@ CHECKS["C20"].update({
              "nobreaking_fields_strict_full_fails_today), the shape facts nobreaking_types_kept / kinds_kept / fields_kept / arguments_kept / "
              "no_*_becomes_required / enum_values_kept / union_members_kept / input_fields / directives; and the headline 'no BREAKING change => every "
              "operation valid on the old schema is valid on the new one' in two forms: operations_stay_valid (ValidDoc, the declarative predicate of "
-             "C05's soundness theorem) and operations_stay_valid_rules (+ nobreaking_possibleFragmentSpreads) over the C06 SPECIFICATION predicates "
-             "rule by rule (views_compatible: the static contexts of every node stay compatible), for all documents whose operations have a root type "
-             "in the old schema (necessary: unrooted_operation_refutes, finding G6). OverlappingFieldsCanBeMerged is FALSE (finding G4). Tied by "
+             "C05's soundness theorem) and operations_stay_valid_rules_all over the C06 SPECIFICATION predicates rule by rule, 25 of the 26 rules: "
+             "operations_stay_valid_rules (8 rules; views_compatible: the static output contexts of every node stay compatible), "
+             "nobreaking_possibleFragmentSpreads, nobreaking_valuesOfCorrectType (inputViews_compatible: the expected INPUT type of every position "
+             "- argument, list item, input object field, at any depth - is unknown on both sides or at least as permissive on the new one: "
+             "argPos_rel / listItemPos_rel / objFieldPos_rel) and nobreaking_variablesInAllowedPosition (usesValue_rel: every usage on the new schema "
+             "is a usage on the old one at an at-least-as-strict position; isSubtype_eq_sub: at input positions is_subtype is the strictness order), "
+             "for all documents whose operations have a root type in the old schema (necessary: unrooted_operation_refutes, finding G6). "
+             "OverlappingFieldsCanBeMerged is FALSE (finding G4). Tied by "
              "exhaustive comparison of the real predicates with the compiled model on all type pairs of depth<=3/4, comparison of the real diff_schema "
              "with the Lean model on every generated schema pair (multiset of class, severity, identifying attributes), and a schema-level oracle "
              "(generated schema + elementary edit + reverse edit, 20 edit kinds incl. root types; definition and inner-list permutations; code-built "
@@ -373,8 +383,10 @@ CHECKS["C20"].update({
     "note": ("Trusted: Lean kernel; py2lean translator; reference semantics of type expressions on abstract values (accepts); generators. diff_schema's "
              "traversal is hand-modelled and tied by correspondence (not re-translated); hash ordering does not exist in the model (only `contains` is "
              "asked: diff_perm_deep) and is exercised with PYTHONHASHSEED varied in fresh interpreters; memos of live schema objects are exercised only "
-             "(live-object and history classes). OldWf / NewWf (closed type map, unique argument names) are consequences of Schema.validate(), which "
-             "diff_schema calls first; they are hypotheses, not derived from C13 here. Known findings G1, G4 (pinned by the suite), G6."),
+             "(live-object and history classes). OldWf / NewWf / OldWfIn / NewWfIn (closed type map, well-formed argument types, unique argument and "
+             "input field names) are consequences of Schema.validate(), which diff_schema calls first; they are hypotheses, not derived from C13 here; "
+             "the input-side rules are stated for the validator WITH fix V9 (necessary). The inner-order oracle has a deterministic block (every "
+             "member-list kind x every removed element x rotations). Known findings G1, G4 (pinned by the suite), G6."),
     "technique": "Lean 4 proof (translated predicates, diff model: reflexivity, order independence at every level, every edit reported, operations stay valid rule by rule over the C06 specification) + exhaustive small-scope correspondence + edit oracle",
 })
 
